@@ -435,13 +435,31 @@ func forgeUnit(ki int, tier string) harness.Unit {
 				ct = append(ct, c2...)
 				c.Add("evaluations", 1)
 				c.Distinct("nontrivial", ct)
-				var out []byte
-				var err error
-				if c.Guard("decrypt-panic:invalid-curve", fmt.Sprintf("decrypt with C1 of order %d on another curve", q), nil, func() { out, err = sm2.Decrypt(priv, ct, sm2.C1C3C2) }) {
-					continue
+				// the same forged ciphertext through EVERY decryption entry point
+				ct2 := append(append(append([]byte{}, ct[:65]...), c2...), c3...) // C1C2C3 ordering
+				der, derr := sm2.CipherMarshal(ct)
+				entries := []struct {
+					name string
+					run  func() ([]byte, error)
+				}{
+					{"Decrypt(C1C3C2)", func() ([]byte, error) { return sm2.Decrypt(priv, ct, sm2.C1C3C2) }},
+					{"Decrypt(C1C2C3)", func() ([]byte, error) { return sm2.Decrypt(priv, ct2, sm2.C1C2C3) }},
+					{"DecryptAsn1", func() ([]byte, error) { return sm2.DecryptAsn1(priv, der) }},
+					{"PrivateKey.DecryptAsn1", func() ([]byte, error) { return priv.DecryptAsn1(der) }},
+					{"PrivateKey.Decrypt(crypto.Decrypter)", func() ([]byte, error) { return priv.Decrypt(nil, ct, nil) }},
 				}
-				if err == nil {
-					c.Violate(fmt.Sprintf("decrypt-accepts:invalid-curve-order-%d", q), fmt.Sprintf("[%s] ciphertext whose C1=(%x,%x) has order %d on y^2=x^3+ax+b' (b'!=b), built for the guess d mod %d = %d, decrypts without error to %q: C1 is not checked to be on the SM2 curve", key.Name, pt.X, pt.Y, q, q, j, out), nil, nil)
+				for _, en := range entries {
+					if derr != nil && (en.name == "DecryptAsn1" || en.name == "PrivateKey.DecryptAsn1") {
+						continue // the ASN.1 form could not be built (CipherMarshal refuses): nothing to offer
+					}
+					var out []byte
+					var err error
+					if c.Guard("decrypt-panic:invalid-curve:"+en.name, fmt.Sprintf("%s with C1 of order %d on another curve", en.name, q), nil, func() { out, err = en.run() }) {
+						continue
+					}
+					if err == nil {
+						c.Violate(fmt.Sprintf("decrypt-accepts:invalid-curve-order-%d:%s", q, en.name), fmt.Sprintf("[%s] %s: ciphertext whose C1=(%x,%x) has order %d on y^2=x^3+ax+b' (b'!=b), built for the guess d mod %d = %d, decrypts without error to %q: C1 is not checked to be on the SM2 curve", key.Name, en.name, pt.X, pt.Y, q, q, j, out), nil, nil)
+					}
 				}
 			}
 		}
